@@ -43,6 +43,7 @@ SetOf(q) == {q[i] : i \in 1..Len(q)}
 (* ---- the model: what one public call does to (path depth, list lengths) ---- *)
 M_New(d1, c1) == d1 = 0 /\ c1 = Zero
 M_StartPage(d1, c1) == d1 = 1 /\ c1 = Zero                  \* path = <<title>>, lists emptied
+                                                              \* (= clauses start_depth /\ lists_emptied)
 M_PathKept(d0, d1) == d1 = d0
 M_Grow(c0, c1) == \A k \in Lists : c1[k] >= c0[k]
 M_Call(d0, c0, d1, c1) == M_PathKept(d0, d1) /\ M_Grow(c0, c1)          \* path restored, lists only grow
